@@ -3,6 +3,7 @@
 (patch.diff, demo.py, meta.json with the agent's own meta + what seedtest.sh observed) and refresh seeded/RESULTS.json"""
 import json, os, re, shutil, sys
 out, res = sys.argv[1], sys.argv[2]
+res2 = sys.argv[3] if len(sys.argv) > 3 else None      # re-runs after the checks were strengthened
 V = os.path.dirname(os.path.dirname(os.path.abspath(__file__)))
 S = os.path.join(V, "seeded")
 TAG = {"a": 10, "b": 11}
@@ -14,6 +15,14 @@ for name in sorted(os.listdir(out)):
     m = re.search(r"SEEDTEST exit=(\d+)", txt)
     if not m:
         continue
+    first = None
+    rf2 = os.path.join(res2, name + ".txt") if res2 else None
+    if rf2 and os.path.exists(rf2) and re.search(r"SEEDTEST exit=(\d+)", open(rf2).read()):
+        s1 = re.search(r"^C\d\d quick.*$", txt, re.M)
+        first = {"exit": m.group(1), "summary": s1.group(0) if s1 else "",
+                 "no_failing_input_found": "no-failing-input-found" in txt}
+        txt = open(rf2).read()
+        m = re.search(r"SEEDTEST exit=(\d+)", txt)
     prop, tag = name.split("-")
     dst = os.path.join(S, f"{prop}-m{TAG[tag]}")
     os.makedirs(dst, exist_ok=True)
@@ -37,6 +46,9 @@ for name in sorted(os.listdir(out)):
         "exit": m.group(1), "violation_lines": viol[:6], "violation_kinds": kinds,
         "no_failing_input_found": any("no-failing-input-found" in v for v in viol),
         "detected": m.group(1) == "1" and bool(viol), "summary": summ.group(0) if summ else ""}
+    if first:
+        meta["history"] = {"first_run_before_strengthening": first,
+                           "note": "the check was strengthened (DESIGN.md section 16.3) and the seed re-run; check_result is the re-run"}
     json.dump(meta, open(os.path.join(dst, "meta.json"), "w"), indent=1)
     print(name, "->", os.path.basename(dst), "exit", m.group(1), "detected" if meta["check_result"]["detected"] else "MISSED")
 # RESULTS.json: one line per seed
